@@ -6,7 +6,7 @@ import os, sys, re, json, subprocess, tempfile, shutil, time, random, atexit, ha
 
 VERIF = os.path.dirname(os.path.dirname(os.path.abspath(__file__)))
 REPO = os.environ.get("ADF_REPO", "/repo")
-LEAN = os.path.join(VERIF, "lean")
+LEAN = os.environ.get("ADF_LEAN", os.path.join(VERIF, "lean"))      # (ADF_LEAN: developer override, a scratch copy of the Lean project)
 ADFDRV = os.path.join(LEAN, ".lake", "build", "bin", "adfdrv")
 ALLOWED_AXIOMS = {"propext", "Classical.choice", "Quot.sound"}
 FORBIDDEN = re.compile(r"\b(sorry|admit|native_decide|bv_decide|implemented_by|unsafe)\b|^\s*axiom\s|maxHeartbeats\s+0")
